@@ -151,7 +151,7 @@ fn ki5e_check_gzip() {
     state.writer.push(o[1]);
     state.out_available = 4;
     let rc = state.dispatch();
-    let expect = model_fold(ck, &o);
+    let expect = crate::crc32::crc32(ck, &o); // the braid kernel behind it is the stubbed model
     let given = u32::from_le_bytes([input[0], input[1], input[2], input[3]]);
     let isize_ = u32::from_le_bytes([input[4], input[5], input[6], input[7]]);
     if rc == ReturnCode::StreamEnd {
